@@ -16,6 +16,7 @@ import (
 	"strings"
 
 	logger "github.com/ElrondNetwork/elrond-go-logger"
+	"github.com/ElrondNetwork/elrond-go/data"
 
 	"verif/internal/acctmodel"
 	"verif/internal/vk"
@@ -82,21 +83,38 @@ func main() {
 	r.Rule("each case = one history of 20-80 steps over 3-6 addresses (shared prefixes), 3 code blobs, 5-8 storage keys: " +
 		"ops (load+modify balance/nonce/owner/codeMetadata/username, SetCode new/shared/changed/cleared, storage write/overwrite/delete, SaveAccount, RemoveAccount, re-create), " +
 		"JournalLen snapshots (stack), RevertToSnapshot to any recorded length (nested, repeated), Commit, RevertToSnapshot(0); trie level-in-memory 1/2/5, pruning manager real or disabled. " +
-		"A case is non-trivial when at least one revert undid at least one successful operation; shape = multiset of operation kinds undone by each revert (+ whether a removal / re-creation / code change / storage delete was undone).")
+		"A case is non-trivial when at least one revert undid at least one successful operation; shape = multiset of operation kinds undone by each revert (+ whether a removal / re-creation / code change / storage delete was undone). " +
+		"Extended histories (appended cases): 3 in 4 draw addresses and storage keys in suffix families (members copy the last 1-4/16/31 bytes, and half of the time one more nibble, of an earlier member: the trie walks keys from the last nibble, so creations and their reverts happen below extension nodes next to sub-families sharing a longer path); " +
+		"extra steps: Commit during which the n-th storage Put (n 1-8) fails (database decorator handed to the trie storage manager) followed by RevertToSnapshot(0); 1-2 accounts written with ImportAccount (un-journaled), optionally right after a Commit, then RevertToSnapshot(0); " +
+		"kept reader handles (GetExistingAccount of an account with storage) read again after every later operation and every revert.")
 	r.Assume("the reference model (map address -> record) is the trusted base",
 		"an operation that returns an error is followed by RevertToSnapshot(pre-op JournalLen), as scProcessor does; the state must then equal the pre-op model",
 		"account handles are never reused across SaveAccount calls (load, modify, save)",
 		"only the value returned by RetrieveValue is compared (an error next to an empty value is ignored)",
+		"a Commit that returns an error is followed by RevertToSnapshot(0), as the block processor does; the state must then be the last committed one (a history in which Commit reports success although the armed Put failed is abandoned and counted: a C08 matter)",
+		"a kept reader handle is taken only of an account on which RemoveAccount was not called since the last Commit / RevertToSnapshot(0), and is read only while the account has existed with non-empty storage ever since and no Commit / RevertToSnapshot(0) / RemoveAccount of it happened meanwhile (all such handles share the data trie cached under the address)",
 		"snapshots are only reverted to while valid: taken since the last Commit/RevertToSnapshot(0) and not above a length already reverted below")
 	r.MinShapes(r.N(40, 200))
 
 	nCases := r.N(1000, 30000)
-	r.Parallel(nCases, func(c *vk.Case) {
+	// extended histories (case index >= nCases; the first nCases cases keep their generator): see extended.go
+	nExtended := r.N(700, 15000)
+	r.Parallel(nCases+nExtended, func(c *vk.Case) {
 		rng := c.Rng
 		opt := acctmodel.Options{MaxTrieLevelInMemory: uint([]int{1, 2, 5}[rng.Intn(3)])}
 		if rng.Chance(1, 3) {
 			opt.Pruning = true
 			opt.EWLCacheSize = uint(rng.Range(1, 3))
+		}
+		extended := c.Idx >= nCases
+		var fdb *acctmodel.FaultDB
+		if extended {
+			// the database handed to the trie storage manager is decorated: transparent until a Put is armed to fail
+			opt.WrapDB = func(db data.DBWriteCacher) data.DBWriteCacher {
+				fdb = acctmodel.NewFaultDB(db)
+				return fdb
+			}
+			r.Count("extended_cases", 1)
 		}
 		env, err := acctmodel.NewEnv(opt)
 		if err != nil {
@@ -104,13 +122,19 @@ func main() {
 			return
 		}
 		defer env.Close()
-		u := acctmodel.NewUniverse(rng, rng.Range(3, 6), 3, rng.Range(5, 8))
+		newUniverse := acctmodel.NewUniverse
+		if extended && rng.Chance(3, 4) {
+			// addresses and storage keys in families sharing their ENDING (the trie walks keys from the last nibble)
+			newUniverse = acctmodel.NewSuffixUniverse
+			r.Count("suffix_family_cases", 1)
+		}
+		u := newUniverse(rng, rng.Range(3, 6), 3, rng.Range(5, 8))
 		wt := acctmodel.DefaultWeights()
 		focused := rng.Chance(1, 3)
 		if focused {
 			// few accounts and keys, many removals and deletes: data tries empty out, accounts are
 			// removed and re-created within one journal
-			u = acctmodel.NewUniverse(rng, rng.Range(2, 3), 3, rng.Range(2, 3))
+			u = newUniverse(rng, rng.Range(2, 3), 3, rng.Range(2, 3))
 			wt.Remove, wt.Storage, wt.Delete, wt.MaxKV = 25, 70, 50, 2
 			r.Count("focused_cases", 1)
 		}
@@ -163,6 +187,12 @@ func main() {
 			return false
 		}
 
+		var ex *extState
+		if extended {
+			ex = &extState{r: r, c: c, env: env, w: w, u: u, fdb: fdb, detail: detail, check: check,
+				stack: &stack, shapeParts: &shapeParts, nonTrivial: &nonTrivial}
+		}
+
 		// prologue: usually some committed state (committed storage is what removals need)
 		if rng.Chance(4, 5) {
 			for i, n := 0, rng.Range(2, 8); i < n; i++ {
@@ -182,6 +212,15 @@ func main() {
 		}
 
 		for s := 0; s < steps; s++ {
+			if ex != nil {
+				handled, ok := ex.step(rng)
+				if !ok {
+					return
+				}
+				if handled {
+					continue
+				}
+			}
 			x := rng.Intn(100)
 			switch {
 			case x < 58: // operation
@@ -204,11 +243,27 @@ func main() {
 					if jlBefore == 0 {
 						stack = nil
 					}
+					if ex != nil {
+						ex.dropAddr(op.Addr)
+						if jlBefore == 0 {
+							ex.dropAll()
+						} else if op.Kind == acctmodel.OpRemove {
+							ex.removal(op.Addr)
+						}
+					}
 					if !check("after-failed-op-revert", preRoot, acctmodel.RevertInfo{}, true) {
 						return
 					}
 				} else if compareEveryStep {
 					if !check("after-op", nil, acctmodel.RevertInfo{}, false) {
+						return
+					}
+				}
+				if ex != nil {
+					if op.Kind == acctmodel.OpRemove && res.Err == nil {
+						ex.removal(op.Addr)
+					}
+					if !ex.readWitnesses("after-op") {
 						return
 					}
 				}
@@ -256,12 +311,23 @@ func main() {
 				if !check(fmt.Sprintf("after-revert-to-%d", sn.JournalLen), sn.Root, info, true) {
 					return
 				}
+				if ex != nil {
+					if sn.JournalLen == 0 {
+						ex.dropAll()
+					}
+					if !ex.readWitnesses("after-revert") {
+						return
+					}
+				}
 			case x < 96: // commit
 				if _, errC := w.Commit(); errC != nil {
 					r.Violation(c.Idx, "commit-error", errC.Error(), detail(nil))
 					return
 				}
 				stack = nil
+				if ex != nil {
+					ex.dropAll()
+				}
 				if !check("after-commit", nil, acctmodel.RevertInfo{}, false) {
 					return
 				}
@@ -273,6 +339,9 @@ func main() {
 					return
 				}
 				stack = nil
+				if ex != nil {
+					ex.dropAll()
+				}
 				r.Count("reverts_to_zero", 1)
 				r.Count("ops_undone", len(undone))
 				if len(undone) > 0 {
